@@ -211,8 +211,116 @@ pub fn run_c01(ctx: &Ctx) {
     run_l2_part(ctx, "l2", Prop::C01, P_C01, ctx.tier.scale(200_000, 10),
         &[("conns>=3", 0.5), ("uds", 0.3), ("saturated", 0.3), ("pause", 0.15), ("fault-discovered", 0.05)],
         ">= 2 listeners or >= 2 workers, >= 3 connections and a pause, kill, stop or saturation in the schedule");
+    // worker side of routing: the real ServerWorker hands each received connection to the service of its listener
+    ctx.run_corpus::<crate::l3::Case>("l3", |c| crate::l3::run_case(c, crate::l3::Prop::C01));
+    let rule = format!("{RULE_L3}; oracle: every service call is for the next connection in worker receive order, on the service registered for the listener the client connected to, never twice, and nothing dispatched is left uncalled when every service is ready; non-trivial = >= 2 services and >= 2 calls");
+    ctx.run_random(
+        Part::new("l3", &rule, ctx.tier.scale(40_000, 10)).floors(&[("services>=2", 0.5), ("calls>=2", 0.4)]).shrink_iters(4000),
+        l3gen::c07_strategy,
+        |c| crate::l3::run_case(c, crate::l3::Prop::C01),
+    );
 }
 
 pub fn replay_c01(ctx: &Ctx, v: &Value) -> i32 {
-    replay_l2(ctx, v, Prop::C01)
+    match v["part"].as_str().unwrap_or("") {
+        p if p.starts_with("l3") => ctx.replay::<crate::l3::Case>(v, |c| crate::l3::run_case(c, crate::l3::Prop::C01)),
+        _ => replay_l2(ctx, v, Prop::C01),
+    }
+}
+
+// ---- L3: in-thread worker ----------------------------------------------------------------------
+
+pub mod l3gen {
+    use proptest::prelude::*;
+
+    use crate::l3::{Case, Op, SvcState};
+
+    fn sel() -> impl Strategy<Value = u16> {
+        any::<u16>()
+    }
+
+    pub fn c07_strategy() -> impl Strategy<Value = Case> {
+        let op = prop_oneof![
+            6 => sel().prop_map(|l| vec![Op::Dispatch { l }]),
+            6 => Just(vec![Op::Poll]),
+            2 => sel().prop_map(|s| vec![Op::MakeReady { s }]),
+            2 => sel().prop_map(|s| vec![Op::MakePending { s }]),
+            1 => sel().prop_map(|s| vec![Op::FailNext { s }]),
+            2 => sel().prop_map(|k| vec![Op::FinishConn { k }]),
+            // idioms: queue connections while a service is pending, then release
+            2 => (sel(), sel(), sel()).prop_map(|(s, l, l2)| vec![Op::MakePending { s }, Op::Poll, Op::Dispatch { l }, Op::Dispatch { l: l2 }, Op::Poll, Op::MakeReady { s }, Op::Poll]),
+            // a readiness failure with connections queued behind it
+            2 => (sel(), sel(), sel()).prop_map(|(s, l, l2)| vec![Op::Dispatch { l }, Op::FailNext { s }, Op::Dispatch { l: l2 }, Op::Poll, Op::Poll, Op::Poll]),
+        ];
+        (
+            1usize..4,
+            prop::collection::vec(0u8..3, 3),
+            prop::collection::vec(prop_oneof![3 => Just(SvcState::Ready), 1 => Just(SvcState::Pending)], 3),
+            prop::collection::vec(op, 1..10),
+        )
+            .prop_map(|(services, factory_delay, initial, ops)| Case { services, limit: 8, shutdown_timeout_s: 30, factory_delay, initial, ops: ops.into_iter().flatten().collect() })
+    }
+
+    pub fn c06_strategy() -> impl Strategy<Value = Case> {
+        let ms = prop_oneof![3 => prop::sample::select(vec![0u32, 1, 250, 500, 999, 1000, 1001, 1500, 2000, 2999, 3000, 5000]), 1 => 0u32..6000];
+        let pre = prop::collection::vec(
+            prop_oneof![4 => sel().prop_map(|l| Op::Dispatch { l }), 4 => Just(Op::Poll), 1 => sel().prop_map(|k| Op::FinishConn { k })],
+            0..8,
+        );
+        let post = prop::collection::vec(
+            prop_oneof![
+                3 => ms.prop_map(|ms| Op::Advance { ms }),
+                3 => Just(Op::Poll),
+                3 => sel().prop_map(|k| Op::FinishConn { k }),
+                1 => sel().prop_map(|l| Op::Dispatch { l }),
+                1 => any::<bool>().prop_map(|graceful| Op::Stop { graceful }),
+            ],
+            0..10,
+        );
+        (1usize..3, prop::sample::select(vec![0u32, 1, 2, 5]), pre, prop_oneof![3 => Just(true), 1 => Just(false)], post, any::<bool>())
+            .prop_map(|(services, shutdown_timeout_s, mut ops, graceful, post, poll_first)| {
+                if poll_first {
+                    ops.push(Op::Poll);
+                }
+                ops.push(Op::Stop { graceful });
+                ops.extend(post);
+                Case { services, limit: 8, shutdown_timeout_s, factory_delay: vec![0; 3], initial: vec![SvcState::Ready; 3], ops }
+            })
+    }
+}
+
+const RULE_L3: &str = "L3: op lists (dispatch through the real stepped accept loop / poll the worker when its waker fired / make a service ready or pending / fail its next readiness check / finish a connection / advance the virtual clock / stop graceful|forced) against the real ServerWorker future polled by hand under paused Tokio time with 1..3 scripted services (state-based readiness that wakes on change, factory futures pending 0..2 polls)";
+
+pub fn run_c07(ctx: &Ctx) {
+    use crate::l3;
+    ctx.assume("the worker is re-polled only when the waker it was given fired; scripted services wake the stored waker whenever their readiness state changes, as a well-behaved service must");
+    ctx.run_corpus::<l3::Case>("l3", |c| l3::run_case(c, l3::Prop::C07));
+    let rule = format!("{RULE_L3}; oracle on the event log: each call is preceded, since the previous call, by a readiness check of every live service whose latest result is Ready(Ok); calls happen in receive order on the service of the connection's listener; a failed readiness check is followed by exactly one re-creation of that service only, the old instance is never used again; with all services ready every dispatched connection is called exactly once; non-trivial = a connection was queued while a service was pending/failing, or a restart happened");
+    ctx.run_random(
+        Part::new("l3", &rule, ctx.tier.scale(60_000, 10)).floors(&[("queued-while-unready", 0.3), ("restart", 0.15), ("services>=2", 0.5), ("readiness-pending", 0.3)]).shrink_iters(4000),
+        l3gen::c07_strategy,
+        |c| l3::run_case(c, l3::Prop::C07),
+    );
+}
+
+pub fn replay_c07(ctx: &Ctx, v: &Value) -> i32 {
+    ctx.replay::<crate::l3::Case>(v, |c| crate::l3::run_case(c, crate::l3::Prop::C07))
+}
+
+// ---- C06 ---------------------------------------------------------------------------------------
+
+pub fn run_c06(ctx: &Ctx) {
+    use crate::l3;
+    ctx.assume("L3 judges the worker's part of the shutdown protocol in virtual time (graceful: completes only when every connection in progress at the command has finished or shutdown_timeout has elapsed, and within one tick after that; forced: completes in the executor turn that delivers the command)");
+    ctx.run_corpus::<l3::Case>("l3", |c| l3::run_case(c, l3::Prop::C06));
+    let rule = format!("{RULE_L3}; shutdown_timeout in {{0,1,2,5}} s, 0..3 connections in progress or queued, one or two stop commands, clock advances clustered around the 1 s ticks; non-trivial = a stop was issued with a connection in progress");
+    ctx.run_random(
+        Part::new("l3", &rule, ctx.tier.scale(40_000, 10)).floors(&[("stop-with-connections-in-progress", 0.3), ("graceful-stop", 0.5), ("forced-stop", 0.2), ("stop-with-queued-connections", 0.1)]).shrink_iters(4000),
+        l3gen::c06_strategy,
+        |c| l3::run_case(c, l3::Prop::C06),
+    );
+}
+
+pub fn replay_c06(ctx: &Ctx, v: &Value) -> i32 {
+    ctx.replay::<crate::l3::Case>(v, |c| crate::l3::run_case(c, crate::l3::Prop::C06))
 }
